@@ -396,3 +396,8 @@ impl<'a> PackHeaderRef<'a> {
         Ok(writer.into_inner())
     }
 }
+
+// verification hook (guard: cfg(kani), set only by the Kani compiler): harnesses live in /verif/kani
+#[cfg(kani)]
+#[path = "/verif/kani/packfile.rs"]
+mod verif_kani;
